@@ -67,7 +67,24 @@ def model_outputs(ctx, records, driver="Ident"):
         if t and t["key"] not in seen:
             seen.add(t["key"])
             libs.append(t)
-    outs = common.run_driver(driver, libs + lines + [f["line"] for f in flagrecs])[len(libs):]
+    nlines = len(lines)
+    k = int(os.environ.get("XV_DRIVER_PARTS", "0")) or (4 if nlines > 40000 else 1)
+    if k > 1 and len(records) >= k:
+        # large streams (thorough tier): the records are self-contained (each starts with its `graph` line), so the stream is
+        # cut at record boundaries and piped through k driver processes at once; every process first gets the class tables
+        bounds, acc, target = [0], 0, nlines / k
+        for ri, r in enumerate(records):
+            acc += len(r["lines"])
+            if acc >= target * len(bounds) and len(bounds) < k:
+                bounds.append(ri + 1)
+        bounds.append(len(records))
+        chunks = [[l for r in records[a:b] for l in r["lines"]] for a, b in zip(bounds, bounds[1:])]
+        chunks[-1] = chunks[-1] + [f["line"] for f in flagrecs]
+        with ThreadPoolExecutor(max_workers=k) as ex:
+            parts = list(ex.map(lambda ch: common.run_driver(driver, libs + ch)[len(libs):] if ch else [], chunks))
+        outs = [o for part in parts for o in part]
+    else:
+        outs = common.run_driver(driver, libs + lines + [f["line"] for f in flagrecs])[len(libs):]
     res, i = [], 0
     for r in records:
         res.append(outs[i:i + len(r["lines"])])
